@@ -654,6 +654,30 @@ int EGLPNUM_TYPENAME_ILLlib_chgbnds (
 	int rval = 0;
 	int i;
 
+	if (!lp)
+	{
+		QSlog("EGLPNUM_TYPENAME_ILLlib_chgbnds called without an lp");
+		rval = 1;
+		ILL_CLEANUP;
+	}
+
+	/* all or nothing: look at every entry before the first bound is changed */
+	for (i = 0; i < cnt; i++)
+	{
+		if (indx[i] < 0 || indx[i] >= lp->O->nstruct)
+		{
+			QSlog("EGLPNUM_TYPENAME_ILLlib_chgbnds called with bad indx: %d", indx[i]);
+			rval = 1;
+			ILL_CLEANUP;
+		}
+		if (lu[i] != 'L' && lu[i] != 'U' && lu[i] != 'B')
+		{
+			QSlog("EGLPNUM_TYPENAME_ILLlib_chgbnds called with lu: %c", lu[i]);
+			rval = 1;
+			ILL_CLEANUP;
+		}
+	}
+
 	for (i = 0; i < cnt; i++)
 	{
 		rval = EGLPNUM_TYPENAME_ILLlib_chgbnd (lp, indx[i], lu[i], bnd[i]);
